@@ -83,7 +83,7 @@ func runC16(ci interface{}) Result {
 			return r
 		}
 	}
-	r.Classes = append(r.Classes, "refresh:"+sc.Cfg.Refresh)
+	r.Classes = append(append(r.Classes, "refresh:"+sc.Cfg.Refresh), featureClasses(sc)...)
 	if tr.LeakUndecided {
 		r.Inconclusive = true
 		vstat.Note("leak check undecided: goroutines still runnable")
